@@ -216,6 +216,19 @@ class RunCtx:
             for w in pool.workers:
                 self.ledgers[id(w)] = WorkerLedger(w, pool)
                 self.pool_of[id(w)] = pool
+        # capacities are the *configured* ones (world spec), not what the live worker reports about itself
+        spec_workers = {wk["name"]: wk for p_ in world["cluster"]["pools"] for wk in p_["workers"]}
+        for led in self.ledgers.values():
+            spec = spec_workers.get(led.name)
+            if spec is None or len(spec["resources"]) != len(led.res_keys) or any(
+                    x["name"] != k[1] for x, k in zip(spec["resources"], led.res_keys)):
+                continue
+            led.res_keys = [(k[0], k[1], k[2], x["q"]) for x, k in zip(spec["resources"], led.res_keys)]
+            led.total_by_type = {}
+            led.total_by_id = {}
+            for (_res, name, rid, q) in led.res_keys:
+                led.total_by_type[name] = led.total_by_type.get(name, 0) + q
+                led.total_by_id[(name, rid)] = q
         for (w, prof, ls) in getattr(built, "preloaded", []):
             self.ledgers[id(w)].profiles[id(prof)] = (prof, ls)
         self.live_pools = {id(p): p for p in built.worker_pools.worker_pools}
@@ -657,6 +670,17 @@ def prepare_placement_check(ctx, ev):
         due = {id(e.task) for e in ctx.mirror
                if getattr(e, "task", None) is not None and e.event_type.name == "TASK_FINISHED"
                and _us(e.time) == ctx.now}
+        if not ctx.variance:
+            # with exact runtimes a running task whose start + runtime is this very instant is due as well, even
+            # if its TASK_FINISHED has not been produced yet (a zero-length task that started at this instant)
+            for led_ in ctx.ledgers.values():
+                for tid_, (rt_, rs_) in led_.residents.items():
+                    sh_ = ctx.shadows.get(tid_)
+                    if sh_ is not None and sh_.state == "RUNNING" and sh_.start_time is not None and \
+                            sh_.start_time + _us(rs_.runtime) == ctx.now:
+                        if tid_ not in due:
+                            ctx.probe("c03_due_without_finish_event")
+                        due.add(tid_)
         if due:
             done2 = [d or (ps is not None and id(ps.task) in due) for d, (_, ps) in zip(done, par)]
             info["ready_after_due"] = True if not par else (any(done2) if node.get("terminal") else all(done2))
